@@ -931,6 +931,26 @@ func verifLenIsHeaderPlusLength(p *PathAttribute) bool {
 //@   claims at-return
 //@   at-return requires ret1 == nil ==> len(ret0) >= 10 && int(ret0[9]) == len(ret0) - 10
 
+// BGP-LS TLVs built by the constructors (the path the API takes): the Length they carry is the length of the value
+// their Serialize writes (LsTLV.Serialize refuses a TLV whose Length disagrees - "LS TLV malformed")
+//@ props C04
+//@ func NewLsTLVLocalIPv6RouterID
+//@   requires l != nil
+//@   claims post
+//@   ensures result != nil && int(result.Length) == 16
+//@ func NewLsTLVRemoteIPv6RouterID
+//@   requires l != nil
+//@   claims post
+//@   ensures result != nil && int(result.Length) == 16
+//@ func NewLsTLVPrefixSID
+//@   requires l != nil
+//@   claims post
+//@   ensures result != nil && int(result.Length) == 8
+//@ func NewLsTLVOpaquePrefixAttr
+//@   requires l != nil && len(*l) <= 65535
+//@   claims post
+//@   ensures result != nil && int(result.Length) == len(*l)
+
 // EVPN I-PMSI route (type 9): what the encoder writes is what Len() announces - RD (8) and Ethernet tag (4), then the
 // extended community directly after them - and the decoder knows the route type its own encoder emits
 //@ props C04
